@@ -77,7 +77,7 @@ pub fn addr_of(k: usize) -> String {
 }
 
 /// C13: `ch <statuses> <peer bitfields ';'-separated> <target index>` → eight answers of choose_piece_index.
-fn op_choose(statuses: &str, peers: &str, target: usize) -> String {
+fn op_choose(statuses: &str, peers: &str, target: usize, by_message: bool) -> String {
     let st = parse_statuses(statuses);
     let peer_bits: Vec<Vec<bool>> = peers.split(';').map(parse_bits).collect();
     let r = catch(|| {
@@ -85,7 +85,14 @@ fn op_choose(statuses: &str, peers: &str, target: usize) -> String {
             let mut s = Session::new(metainfo(st.len(), 16384, 16384), own_id());
             for (k, bits) in peer_bits.iter().enumerate() {
                 s.verif_add_peer(addr_of(k), None);
-                s.verif_peers().get_mut(&addr_of(k)).unwrap().pieces = bits.clone();
+                if by_message {
+                    // the advertised set arrives the way it does in a session: as a Bitfield message of that connection
+                    let (tx, _rx) = tokio::sync::oneshot::channel();
+                    let cmd = PeerCmd::RecvBitfield { addr: addr_of(k), bitfield: Bitfield::from_vec(bits), resp_ch: tx };
+                    let _ = s.verif_handle_peer_cmd(cmd).await;
+                } else {
+                    s.verif_peers().get_mut(&addr_of(k)).unwrap().pieces = bits.clone();
+                }
             }
             *s.verif_statuses() = st.clone();
             let mut out = vec![];
@@ -103,7 +110,8 @@ fn op_choose(statuses: &str, peers: &str, target: usize) -> String {
 
 pub fn run13(args: &[&str]) -> String {
     match args[0] {
-        "ch" => op_choose(args[1], args[2], args[3].parse().unwrap()),
+        "ch" => op_choose(args[1], args[2], args[3].parse().unwrap(), false),
+        "chb" => op_choose(args[1], args[2], args[3].parse().unwrap(), true),
         _ => panic!("unknown C13 op"),
     }
 }
@@ -168,9 +176,10 @@ pub fn gen13(r: &mut Rng, n: usize) -> Vec<String> {
         out.push(gen13_have(r));
     }
     for _ in 0..n {
-        let np = match r.below(4) {
+        let np = match r.below(5) {
             0 => 3 + r.below(8) as usize,
             1 => 9 + r.below(4) as usize,
+            2 => 8 * (1 + r.below(4) as usize), // no spare bits in the last byte of a bitfield
             _ => 3 + r.below(38) as usize,
         };
         let mut st = gen_statuses(r, np);
@@ -201,7 +210,7 @@ pub fn gen13(r: &mut Rng, n: usize) -> Vec<String> {
             .map(|_| bits_str(&(0..np).map(|_| r.below(100) < dens).collect::<Vec<_>>()))
             .collect();
         let target = r.below(peers as u64) as usize;
-        out.push(format!("ch {} {} {}", statuses_str(&st), bits.join(";"), target));
+        out.push(format!("{} {} {} {}", if r.coin() { "ch" } else { "chb" }, statuses_str(&st), bits.join(";"), target));
     }
     out
 }
